@@ -729,6 +729,28 @@ func (t *TypeState) enterExitCorrelation(at ssa.Instruction, rule, acc string) (
 					reset = true
 				}
 			}
+			// defer func() { l.F = nil }(): the reset runs at every return the defer statement dominates
+			for _, db := range f.Blocks {
+				for _, in := range db.Instrs {
+					d, isDefer := in.(*ssa.Defer)
+					if !isDefer || !db.Dominates(b) {
+						continue
+					}
+					mc, isMC := d.Call.Value.(*ssa.MakeClosure)
+					if !isMC {
+						continue
+					}
+					cf, isFn := mc.Fn.(*ssa.Function)
+					if !isFn {
+						continue
+					}
+					for _, st := range storesTo(cf, field) {
+						if cst, isConst := st.Val.(*ssa.Const); isConst && cst.IsNil() && len(cf.Blocks) == 1 {
+							reset = true
+						}
+					}
+				}
+			}
 			if !reset {
 				okReset = false
 			}
